@@ -21,7 +21,7 @@ import tlaval
 
 MANIFEST = dict(
     technique='TLA+ I-spec Neigh (link address cache ring + resolution goroutines; TLC exhaustive, all races of lookup / add / timeout / expiry / eviction) + P-spec TraceNeigh validating link-tap and sockets-API observations of the real stack (own decoder; time used only as lower bound); scenario orders partly derived from TLC simulation of the I-spec',
-    text='TLC explores every interleaving of two concurrent lookups, replies, overwrites, retry timeouts, expiry and ring eviction on a 2..3-entry ring with 3 addresses: a hit returns the link address most recently added for exactly that key and never an expired one, waiters are always notified when their entry leaves incomplete or is evicted, changeState never takes a transition on which the Go code panics, a resolution sends at most 3 requests. On the real stack TLC decides for every trace: an injected ARP request / neighbour solicitation is answered exactly once iff the target is an own address (sender fields = own MAC + target, target fields and link destination = requester), malformed ones never; after a reply or a request addressed to the stack traffic for that neighbour goes to the learned MAC without a new request; no packet for an unresolved next hop (also via a gateway) is emitted; requests are broadcast, at least 0.9 s apart, at most 3 per resolution; the waiting Write / Connect / GetLinkAddress proceeds with the learned MAC or fails with the no-link-address error only after the third request plus one more timeout; mappings (also ones that overwrote an older mapping or a failed resolution of the same address, whose stale ring slot is recycled earlier) survive exactly until 512 newer entries exist and are never used for another key after ring wrap, nor once their 60 s life time is over: real-time scenarios (one in the quick tier, 13 in the thorough tier, run beside everything else) learn a mapping, check that it is still used without a request after 43-49 s, idle to 65+ s and require a new request before any datagram (answered: the new MAC is used; unanswered: failure after the budget), and require a failed entry to be retried after its life time.',
+    text='TLC explores every interleaving of two concurrent lookups, replies, overwrites, retry timeouts, expiry and ring eviction on a 2..3-entry ring with 3 addresses: a hit returns the link address most recently added for exactly that key and never an expired one, waiters are always notified when their entry leaves incomplete or is evicted, changeState never takes a transition on which the Go code panics, a resolution sends at most 3 requests. On the real stack TLC decides for every trace: an injected ARP request / neighbour solicitation is answered exactly once iff the target is an own address (sender fields = own MAC + target, target fields and link destination = requester), malformed ones never; a neighbour advertisement is a reply for its TARGET field whatever its IPv6 source is (link-local source answering for a global target and the reverse, foreign source, solicited and unsolicited; messages without the link-layer address option may but need not be learned from); after a reply or a request addressed to the stack traffic for that neighbour goes to the learned MAC without a new request; no packet for an unresolved next hop (also via a gateway) is emitted; requests are broadcast, at least 0.9 s apart, at most 3 per resolution; the waiting Write / Connect / GetLinkAddress proceeds with the learned MAC or fails with the no-link-address error only after the third request plus one more timeout; mappings (also ones that overwrote an older mapping or a failed resolution of the same address, whose stale ring slot is recycled earlier) survive exactly until 512 newer entries exist and are never used for another key after ring wrap, nor once their 60 s life time is over: real-time scenarios (one in the quick tier, 13 in the thorough tier, run beside everything else) learn a mapping, check that it is still used without a request after 43-49 s, idle to 65+ s and require a new request before any datagram (answered: the new MAC is used; unanswered: failure after the budget), and require a failed entry to be retried after its life time.',
     design='5 C12',
     note='Only lower bounds on time (a give-up after 20 s of real time produces a ret event the spec rejects, subject to the reproduce-once rule). Learning from requests NOT addressed to the stack is neither required nor forbidden by the statement: the P-spec allows both. Connected sockets / TCP connections keep the link address their route resolved once (route-level caching): scenarios do not overwrite a mapping while such a socket is in use. The stale-timer race of the I-spec (NoEarlyFail, see Neigh.tla) needs an eviction or expiry inside the microsecond window between a timer firing and checkLinkRequest taking the lock; it is reported in the evidence, not driven on the real code.  The cache reads time.Now() directly, so the life-time scenarios cost 66-70 s of real time (overlapped with the rest of the check); the P-spec asserts must-use only up to 55 s and must-re-resolve only from 61 s after the mapping was learned or confirmed.')
 
@@ -54,18 +54,25 @@ def arp_rep(sha, spa, tha=OWNMAC, tpa='10.0.0.1', rmac=None, **kw):
     return op
 
 
-def ns(src, target, m, dst=None, **kw):
-    op = dict(op='inject', kind='ns', src=src, dst=dst or 'ff02::1:ff00:1', target=target, optmac=m, rmac=m,
-              cls='req', v=6, valid=True, sip=src, smac=m)
+def ns(src, target, m, dst=None, opt=True, **kw):
+    """Neighbour solicitation; what a receiver learns from one addressed to it: IPv6 source -> source link-layer address."""
+    op = dict(op='inject', kind='ns', src=src, dst=dst or 'ff02::1:ff00:1', target=target, optmac=(m if opt else ''), rmac=m,
+              cls='req', v=6, valid=True, sip=src, smac=m, noopt=not opt)
     op.update(kw)
     return op
 
 
-def na(src, target, m, dst='fd00::1', **kw):
-    op = dict(op='inject', kind='na', src=src, dst=dst, target=target, optmac=m, rmac=m,
-              cls='rep', v=6, valid=True, sip=target, smac=m, sip2=(src if src != target else ''))
+def na(src, target, m, dst='fd00::1', opt=True, **kw):
+    """Neighbour advertisement: it is a reply FOR ITS TARGET FIELD (RFC 4861), whatever its IPv6 source address is."""
+    op = dict(op='inject', kind='na', src=src, dst=dst, target=target, optmac=(m if opt else ''), rmac=m,
+              cls='rep', v=6, valid=True, sip=target, smac=m, sip2=(src if src != target else ''), noopt=not opt)
     op.update(kw)
     return op
+
+
+def other6(addr):
+    """Another address of the same neighbour: link-local for a global one and the reverse."""
+    return ('fe80::' if addr.startswith('fd00::') else 'fd00::') + addr.split('::')[1]
 
 
 def malform(rng, op):
@@ -106,14 +113,27 @@ def learn_op(rng, v, addr, m, own=None):
         if how == 'request-to-us':
             return arp_req(m, addr, own)
         return dict(op='add', addr=addr, mac=m)
-    how = rng.choice(['na', 'na', 'na-unsolicited', 'ns-to-us', 'add'])
+    how = rng.choice(['na', 'na-othersrc', 'na-othersrc', 'na-foreignsrc', 'na-unsolicited', 'na-unsolicited-othersrc', 'ns-to-us', 'add'])
     if how == 'na':
         return na(addr, addr, m)
+    if how == 'na-othersrc':             # answers for its global address from its link-local one (or the reverse)
+        return na(other6(addr), addr, m)
+    if how == 'na-foreignsrc':           # proxy-like: source is yet another address
+        return na('fd00::%x' % rng.randrange(0x200, 0x2ff), addr, m)
     if how == 'na-unsolicited':
         return na(addr, addr, m, flags=0x20)
+    if how == 'na-unsolicited-othersrc':
+        return na(other6(addr), addr, m, flags=rng.choice([0x20, 0x00, 0xa0]), dst=rng.choice(['fd00::1', 'ff02::1:ff00:1']))
     if how == 'ns-to-us':
         return ns(addr, 'fd00::1', m, dst=rng.choice(['ff02::1:ff00:1', 'fd00::1']))
     return dict(op='add', addr=addr, mac=m)
+
+
+def noopt6(rng, addr, m):
+    """NDP messages about addr WITHOUT the link-layer address option (the stack may or may not learn from them)."""
+    if rng.random() < 0.5:
+        return na(rng.choice([addr, other6(addr)]), addr, m, opt=False)
+    return ns(addr, 'fd00::1', m, dst=rng.choice(['ff02::1:ff00:1', 'fd00::1']), opt=False)
 
 
 class Sc(object):
@@ -156,7 +176,8 @@ def gen_scenarios(ctx, n):
     for i in range(n):
         fam = fams[i % len(fams)]
         v = 6 if (fam == 'mixed6' or (fam in ('resolve', 'fail', 'overwrite', 'race', 'answer') and rng.random() < 0.3)) else 4
-        A = (lambda k: 'fd00::%x' % (0x10 + k)) if v == 6 else (lambda k: '10.0.0.%d' % (16 + k))
+        pfx6 = 'fe80::' if (v == 6 and rng.random() < 0.3) else 'fd00::'
+        A = (lambda k, p=pfx6: '%s%x' % (p, 0x10 + k)) if v == 6 else (lambda k: '10.0.0.%d' % (16 + k))
         s = Sc(fam)
         if fam == 'answer':
             # requests for own / foreign / malformed targets from several senders; learning from the ones addressed to us
@@ -169,11 +190,11 @@ def gen_scenarios(ctx, n):
                     op = arp_req(m, A(k), tgt, rmac=(m if rng.random() < 0.85 else mac(0x300 + k)), pad=rng.choice([0, 0, 18]))
                 else:
                     tgt = rng.choice(OWN6 + OWN6 + ['fd00::2', 'fd00::100:1', 'fe80::1', A(k)])
-                    op = ns(A(k), tgt, m, dst=rng.choice(['ff02::1:ff00:1', 'fd00::1']))
+                    op = ns(A(k), tgt, m, dst=rng.choice(['ff02::1:ff00:1', 'fd00::1']), opt=rng.random() < 0.75)
                 if rng.random() < 0.25:
                     op = malform(rng, op)
                 s.op(op)
-                if op['valid'] and op['cls'] == 'req' and tgt in OWN4 + OWN6:
+                if op['valid'] and op['cls'] == 'req' and tgt in OWN4 + OWN6 and not op.get('noopt'):
                     learned[k] = m
                     if rng.random() < 0.5:
                         s.sync(rng.choice(KINDS), A(k))      # Learn: no new request, right MAC
@@ -189,6 +210,8 @@ def gen_scenarios(ctx, n):
                 s.op(learn_op(rng, v, A(1), mac(0x101)))
                 base = arp_rep(mac(0x1ff), A(0)) if v == 4 else na(A(0), A(0), mac(0x1ff))
                 s.op(malform(rng, base))
+            if v == 6 and rng.random() < 0.4:
+                s.op(noopt6(rng, A(0), mac(0x100)))          # optional: same MAC as the real answer below
             s.op(learn_op(rng, v, A(0), mac(0x100)))
             s.wait(*ids)
             s.sync(rng.choice(KINDS), A(0))
